@@ -82,6 +82,15 @@ func genCall(r *rand.Rand, parts []partSpec, closed *bool, noSkip bool) callSpec
 		if r.Intn(9) == 0 && len(c.Plan) > 0 {
 			c.NoCreate = []int64{c.Plan[r.Intn(len(c.Plan))]}
 		}
+		if r.Intn(8) == 0 && len(c.Plan) > 0 && len(c.NoCreate) == 0 {
+			// transient refusals of ListOffsets while the claim is opened
+			w := [][2]int{{0, 2}, {0, 2}, {2, 4}, {0, 4}, {0, 1}}[r.Intn(5)]
+			k := "notleader"
+			if len(c.Plan) == 1 && r.Intn(3) == 0 {
+				k = "drop"
+			}
+			c.Faults = []faultSpec{{P: c.Plan[r.Intn(len(c.Plan))], From: w[0], To: w[1], Kind: k}}
+		}
 		if r.Intn(10) == 0 {
 			c.SetupOK = false
 		}
@@ -90,6 +99,11 @@ func genCall(r *rand.Rand, parts []partSpec, closed *bool, noSkip bool) callSpec
 		}
 	}
 	selfEnding := !c.SetupOK || len(c.NoCreate) > 0
+	for _, f := range c.Faults {
+		if f.From == 0 && f.To >= 2 {
+			selfEnding = true // the first ConsumePartition fails: the claim goroutine ends the session
+		}
+	}
 	for _, p := range c.Plan {
 		b := behSpec{P: p, Quota: -1, Mark: r.Intn(4)}
 		if r.Intn(2) == 0 {
@@ -216,6 +230,30 @@ func genNoSkip(r *rand.Rand) caseSpec {
 	for i, n := 0, 2+r.Intn(3); i < n; i++ {
 		cs.Calls = append(cs.Calls, genCall(r, cs.Parts, &closed, true))
 	}
+	return cs
+}
+
+// genTransient: a valid committed offset strictly inside the log (so that it differs from the initial position) and a
+// transient fault while the claim is opened: the claim must not be started at the initial position. A second session
+// without fault resumes from the committed offset.
+func genTransient(r *rand.Rand) caseSpec {
+	cs := caseSpec{Retries: 1, HbRetries: 1, Attempts: 2, InitialOldest: r.Intn(3) == 0, Close: true, Leave: "ok"}
+	np := 1 + r.Intn(2)
+	for p := 0; p < np; p++ {
+		lo := int64(r.Intn(2) * 2)
+		hi := lo + 4 + int64(r.Intn(6))
+		cs.Parts = append(cs.Parts, partSpec{Topic: 0, P: p, Oldest: lo, Newest: hi, Stored: lo + 1 + int64(r.Intn(int(hi-lo)-1))})
+	}
+	closed := true
+	c := genCall(r, cs.Parts, &closed, true)
+	k := "notleader"
+	if np == 1 && r.Intn(3) == 0 {
+		k = "drop"
+	}
+	w := [][2]int{{0, 2}, {0, 2}, {0, 2}, {0, 4}}[r.Intn(4)]
+	c.Faults = []faultSpec{{P: c.Plan[r.Intn(len(c.Plan))], From: w[0], To: w[1], Kind: k}}
+	c.Trigger, c.Hbs = []string{"ctx-steady", "none", "none"}[r.Intn(3)], nil
+	cs.Calls = []callSpec{c, genCall(r, cs.Parts, &closed, true)}
 	return cs
 }
 
